@@ -1,11 +1,25 @@
 (* Line protocol around the extracted Gallina model / specification oracles.
    request:  <command> <arg> ...     ints in decimal, bit strings as 0/1 characters, rows joined by '/'
    answer :  one line per request *)
-open Model
+module L = Stdlib.List
+module S = Stdlib.String
+open BinNums
+open Datatypes
+open PyLite
+open Segment
+open Version
+open Stream
+open Matrix
+open Encode
+open Sequence
+open Args
+open Classify
+open Decoder
+open Spec
 
-let rec pos_of_int n = if n = 1 then XH else if n land 1 = 0 then XO (pos_of_int (n lsr 1)) else XI (pos_of_int (n lsr 1))
+let rec pos_of_int n = if n = 1 then Coq_xH else if n land 1 = 0 then Coq_xO (pos_of_int (n lsr 1)) else Coq_xI (pos_of_int (n lsr 1))
 let z_of_int n = if n = 0 then Z0 else if n > 0 then Zpos (pos_of_int n) else Zneg (pos_of_int (-n))
-let rec int_of_pos = function XH -> 1 | XO p -> 2 * int_of_pos p | XI p -> 2 * int_of_pos p + 1
+let rec int_of_pos = function Coq_xH -> 1 | Coq_xO p -> 2 * int_of_pos p | Coq_xI p -> 2 * int_of_pos p + 1
 let int_of_z = function Z0 -> 0 | Zpos p -> int_of_pos p | Zneg p -> - (int_of_pos p)
 let zi s = z_of_int (int_of_string s)
 let ozi s = if s = "-" then None else Some (zi s)
@@ -14,23 +28,23 @@ let soz = function None -> "-" | Some z -> string_of_int (int_of_z z)
 (* Coq strings (inductive, no ExtrOcamlString) *)
 let ascii_of_char c =
   let n = Char.code c in
-  Ascii (n land 1 <> 0, n land 2 <> 0, n land 4 <> 0, n land 8 <> 0, n land 16 <> 0, n land 32 <> 0, n land 64 <> 0, n land 128 <> 0)
+  Ascii.Ascii (n land 1 <> 0, n land 2 <> 0, n land 4 <> 0, n land 8 <> 0, n land 16 <> 0, n land 32 <> 0, n land 64 <> 0, n land 128 <> 0)
 let coq_string s =
-  let r = ref EmptyString in
-  for i = String.length s - 1 downto 0 do r := String (ascii_of_char s.[i], !r) done; !r
+  let r = ref String.EmptyString in
+  for i = S.length s - 1 downto 0 do r := String.String (ascii_of_char (S.get s (i)), !r) done; !r
 
-let bits_of_string s = if s = "-" then [] else List.init (String.length s) (fun i -> s.[i] = '1')
-let rows_of_string s = if s = "-" then [] else List.map bits_of_string (String.split_on_char '/' s)
+let bits_of_string s = if s = "-" then [] else L.init (S.length s) (fun i -> (S.get s (i)) = '1')
+let rows_of_string s = if s = "-" then [] else L.map bits_of_string (S.split_on_char '/' s)
 let string_of_zrows rows =
-  String.concat "/" (List.map (fun r -> String.concat "," (List.map (fun z -> string_of_int (int_of_z z)) r)) rows)
-let zlist_of_string s = if s = "-" || s = "" then [] else List.map zi (String.split_on_char ',' s)
-let string_of_zlist l = if l = [] then "-" else String.concat "," (List.map (fun z -> string_of_int (int_of_z z)) l)
-let string_of_bits l = if l = [] then "-" else String.concat "" (List.map (fun b -> if b then "1" else "0") l)
-let string_of_rows rows = String.concat "/" (List.map string_of_bits rows)
+  S.concat "/" (L.map (fun r -> S.concat "," (L.map (fun z -> string_of_int (int_of_z z)) r)) rows)
+let zlist_of_string s = if s = "-" || s = "" then [] else L.map zi (S.split_on_char ',' s)
+let string_of_zlist l = if l = [] then "-" else S.concat "," (L.map (fun z -> string_of_int (int_of_z z)) l)
+let string_of_bits l = if l = [] then "-" else S.concat "" (L.map (fun b -> if b then "1" else "0") l)
+let string_of_rows rows = S.concat "/" (L.map string_of_bits rows)
 let string_of_bool b = if b then "1" else "0"
 let bytes_of_hex s =
   if s = "-" then [] else
-  List.init (String.length s / 2) (fun i -> z_of_int (int_of_string ("0x" ^ String.sub s (2 * i) 2)))
+  L.init (S.length s / 2) (fun i -> z_of_int (int_of_string ("0x" ^ S.sub s (2 * i) 2)))
 
 let string_of_exn = function
   | ValueError -> "ValueError" | DataOverflow -> "DataOverflow" | UnicodeErr -> "UnicodeErr" | LookupErr -> "LookupErr"
@@ -39,14 +53,14 @@ let string_of_exn = function
 
 let codec_of_string s =
   if s = "U" then CRUnicode else if s = "L" then CRLookup
-  else CROk (bytes_of_hex (String.sub s 1 (String.length s - 1)))
+  else CROk (bytes_of_hex (S.sub s 1 (S.length s - 1)))
 let enc_of name canon =
   if name = "-" then None
   else Some { e_name = coq_string name; e_canon = (if canon = "-" then None else Some (coq_string canon)) }
 
 (* part token:  B;hex;mode;encname;canon   |   T;given;latin1;sjis;utf8;mode;encname;canon *)
 let part_of_string s =
-  match String.split_on_char ';' s with
+  match S.split_on_char ';' s with
   | ["B"; hex; mode; en; ec] -> { p_content = PBytes (bytes_of_hex hex); p_mode = ozi mode; p_enc = enc_of en ec }
   | ["T"; g; l; sj; u; mode; en; ec] ->
       { p_content = PText (codec_of_string g, codec_of_string l, codec_of_string sj, codec_of_string u);
@@ -59,55 +73,137 @@ let string_of_segment s =
   Printf.sprintf "%d,%d,%s" (int_of_z s.s_mode) (int_of_z s.s_count) (string_of_bits s.s_bits)
 let code_body c =
   Printf.sprintf "%d %s %d %s %s" (int_of_z c.c_version) (soz c.c_error) (int_of_z c.c_mask)
-    (string_of_rows c.c_matrix) (String.concat ";" (List.map string_of_segment c.c_segments))
+    (string_of_rows c.c_matrix) (S.concat ";" (L.map string_of_segment c.c_segments))
 let string_of_code c = "OK " ^ code_body c
 
 let string_of_level = function None -> "-" | Some LvL -> "L" | Some LvM -> "M" | Some LvQ -> "Q" | Some LvH -> "H"
 let string_of_dmode = function DNumeric -> "numeric" | DAlnum -> "alphanumeric" | DByte -> "byte" | DKanji -> "kanji" | DHanzi -> "hanzi"
-let hex_of_zlist l = String.concat "" (List.map (fun z -> Printf.sprintf "%02x" (int_of_z z)) l)
+let hex_of_zlist l = S.concat "" (L.map (fun z -> Printf.sprintf "%02x" (int_of_z z)) l)
 let string_of_dseg s =
   Printf.sprintf "%s,%s,%d,%s" (string_of_dmode s.d_mode) (soz s.d_eci) (int_of_z s.d_count) (hex_of_zlist s.d_bytes)
 let string_of_decoded d =
   Printf.sprintf "OK %d %s %d %s %s %s %s" (int_of_z d.dec_version) (string_of_level d.dec_level) (int_of_z d.dec_mask)
     (match d.dec_sa with None -> "-" | Some ((a, b), c) -> Printf.sprintf "%d,%d,%d" (int_of_z a) (int_of_z b) (int_of_z c))
-    (if d.dec_segments = [] then "-" else String.concat ";" (List.map string_of_dseg d.dec_segments))
+    (if d.dec_segments = [] then "-" else S.concat ";" (L.map string_of_dseg d.dec_segments))
     (hex_of_zlist d.dec_data_codewords) (string_of_bits d.dec_tail)
 
 let segs_of_string s =
   if s = "-" then [] else
-  List.map (fun t -> match String.split_on_char ',' t with
-                     | [m; c; e] -> ((zi m, zi c), e = "1") | _ -> failwith "bad seg") (String.split_on_char ';' s)
+  L.map (fun t -> match S.split_on_char ',' t with
+                     | [m; c; e] -> ((zi m, zi c), e = "1") | _ -> failwith "bad seg") (S.split_on_char ';' s)
 
 (* sequence content:  B;hex  |  T;g,l,s,u|g,l,s,u|...  (one group per character) *)
 let scontent_of_string s =
-  match String.split_on_char ';' s with
+  match S.split_on_char ';' s with
   | ["B"; hex] -> SBytes (bytes_of_hex hex)
   | ["T"; chars] ->
       SText (if chars = "-" then [] else
-             List.map (fun c -> match String.split_on_char ',' c with
+             L.map (fun c -> match S.split_on_char ',' c with
                                 | [g; l; sj; u] -> { ch_given = codec_of_string g; ch_latin1 = codec_of_string l;
                                                      ch_sjis = codec_of_string sj; ch_utf8 = codec_of_string u }
-                                | _ -> failwith "bad char") (String.split_on_char '|' chars))
+                                | _ -> failwith "bad char") (S.split_on_char '|' chars))
   | _ -> failwith "bad content"
 
 (* python values: N | B0 | B1 | I<int> | S<hex of code points (ASCII)> *)
 let pyval_of_string s =
   if s = "N" then VNone else
-  match s.[0] with
+  match (S.get s (0)) with
   | 'B' -> VBool (s = "B1")
-  | 'I' -> VInt (zi (String.sub s 1 (String.length s - 1)))
-  | 'S' -> VStr (bytes_of_hex (String.sub s 1 (String.length s - 1)))
+  | 'I' -> VInt (zi (S.sub s 1 (S.length s - 1)))
+  | 'S' -> VStr (bytes_of_hex (S.sub s 1 (S.length s - 1)))
   | _ -> failwith "bad pyval"
 let string_of_ozres = function Ok o -> "OK " ^ soz o | Err e -> "ERR " ^ string_of_exn e
 
+(* ---- serializer side ---- *)
+let cps_of_string s = if s = "-" || s = "" then [] else L.map zi (S.split_on_char '.' s)
+let string_of_cps l = if l = [] then "-" else S.concat "." (L.map (fun z -> string_of_int (int_of_z z)) l)
+let zrows_of_string s =
+  if s = "-" then [] else
+  L.map (fun r -> L.init (S.length r) (fun i -> z_of_int (Char.code (S.get r i) - 48))) (S.split_on_char '/' s)
+let string_of_zgrid rows = S.concat "/" (L.map (fun r -> S.concat "" (L.map (fun z -> string_of_int (int_of_z z)) r)) rows)
+(* colour token: N | S:<cps> | T:<ints>   ;   option token: - (not given) or a colour token *)
+let color_of_string s : Color.pycolor option =
+  if s = "N" then None
+  else if S.length s >= 2 && S.sub s 0 2 = "S:" then Some (Color.CStr (cps_of_string (S.sub s 2 (S.length s - 2))))
+  else if S.length s >= 2 && S.sub s 0 2 = "T:" then Some (Color.CTuple (cps_of_string (S.sub s 2 (S.length s - 2))))
+  else failwith ("bad colour " ^ s)
+let ocolor_opt s = if s = "-" then None else Some (color_of_string s)
+let color_opts_of = function
+  | [d; l; fd; fl; dd; dl; vd; vl; fmd; fml; ad; al; td; tl; sep; dm; qz] ->
+      { Color.o_dark = color_of_string d; o_light = color_of_string l; o_finder_dark = ocolor_opt fd; o_finder_light = ocolor_opt fl;
+        o_data_dark = ocolor_opt dd; o_data_light = ocolor_opt dl; o_version_dark = ocolor_opt vd; o_version_light = ocolor_opt vl;
+        o_format_dark = ocolor_opt fmd; o_format_light = ocolor_opt fml; o_alignment_dark = ocolor_opt ad; o_alignment_light = ocolor_opt al;
+        o_timing_dark = ocolor_opt td; o_timing_light = ocolor_opt tl; o_separator = ocolor_opt sep; o_dark_module = ocolor_opt dm;
+        o_quiet_zone = ocolor_opt qz }
+  | _ -> failwith "colour options: 17 tokens expected"
+let res_bytes = function Ok l -> "OK " ^ (if l = [] then "-" else hex_of_zlist l) | Err e -> "ERR " ^ string_of_exn e
+let res_cps = function Ok l -> "OK " ^ string_of_cps l | Err e -> "ERR " ^ string_of_exn e
+let string_of_pixels rows =
+  S.concat "/" (L.map (fun r -> S.concat "," (L.map (fun px -> S.concat "." (L.map (fun z -> string_of_int (int_of_z z)) px)) r)) rows)
+
+let handle_ser toks =
+  match toks with
+  | ["pixel_grid"; rows; size; scale; border] ->
+      Some (string_of_zgrid (Pixel.pixel_grid (zrows_of_string rows) (zi size) (zi scale) (zi border)))
+  | ["w_txt"; rows; size; border; dark; light] ->
+      Some (res_cps (TextFmt.write_txt (zrows_of_string rows) (zi size) (zi size) (ozi border) (cps_of_string dark) (cps_of_string light)))
+  | ["w_xbm"; rows; size; scale; border; name] ->
+      Some (res_cps (TextFmt.write_xbm (zrows_of_string rows) (zi size) (zi size) (zi scale) (ozi border) (cps_of_string name)))
+  | ["w_xpm"; rows; size; scale; border; dark; light; name] ->
+      Some (res_cps (TextFmt.write_xpm (zrows_of_string rows) (zi size) (zi size) (zi scale) (ozi border) (color_of_string dark) (color_of_string light) (cps_of_string name)))
+  | ["w_term"; rows; size; border] -> Some (res_cps (TextFmt.write_terminal (zrows_of_string rows) (zi size) (zi size) (ozi border)))
+  | ["w_termc"; rows; size; border] -> Some (res_cps (TextFmt.write_terminal_compact (zrows_of_string rows) (zi size) (zi size) (ozi border)))
+  | ["r_txt"; dark; light; text] ->
+      Some (match TextFmtReader.read_txt (cps_of_string dark) (cps_of_string light) (cps_of_string text) with
+            | Some g -> "OK " ^ string_of_zgrid g | None -> "NONE")
+  | ["r_xbm"; text] ->
+      Some (match TextFmtReader.read_xbm (cps_of_string text) with
+            | Some ((w, h), g) -> Printf.sprintf "OK %d %d %s" (int_of_z w) (int_of_z h) (string_of_zgrid g) | None -> "NONE")
+  | ["r_xpm"; text] ->
+      Some (match TextFmtReader.read_xpm (cps_of_string text) with
+            | Some ((w, h), g) -> Printf.sprintf "OK %d %d %s" (int_of_z w) (int_of_z h) (string_of_pixels g) | None -> "NONE")
+  | ["r_term"; text] ->
+      Some (match TextFmtReader.read_terminal (cps_of_string text) with Some g -> "OK " ^ string_of_zgrid g | None -> "NONE")
+  | ["r_termc"; text] ->
+      Some (match TextFmtReader.read_terminal_compact (cps_of_string text) with Some g -> "OK " ^ string_of_zgrid g | None -> "NONE")
+  | "png_parts" :: rows :: size :: scale :: border :: dpi :: opts ->
+      let sz = zi size in
+      Some (match Png.png_parts (zrows_of_string rows) (Classify.align_aux_matrix sz) sz (zi scale) (ozi border) (ozi dpi) (color_opts_of opts) with
+            | Ok ((pre, raw), iend) ->
+                "OK " ^ (if pre = [] then "-" else S.concat "," (L.map hex_of_zlist pre)) ^ " " ^ (if raw = [] then "-" else hex_of_zlist raw) ^ " " ^ hex_of_zlist iend
+            | Err e -> "ERR " ^ string_of_exn e)
+  | ["r_png"; file; comp; raw] ->
+      let c = bytes_of_hex comp and r = bytes_of_hex raw in
+      let inflate l = if l = c then Some r else None in
+      Some (match PngReader.read_png inflate (bytes_of_hex file) with
+            | Some ((w, h), px) ->
+                Printf.sprintf "OK %d %d %s" (int_of_z w) (int_of_z h)
+                  (S.concat "/" (L.map (fun row -> S.concat "," (L.map (fun (((a, b), c), d) ->
+                     Printf.sprintf "%d.%d.%d.%d" (int_of_z a) (int_of_z b) (int_of_z c) (int_of_z d)) row)) px))
+            | None -> "NONE")
+  | ["r_pbm"; file] ->
+      Some (match NetpbmReader.read_pbm (bytes_of_hex file) with
+            | Some ((w, h), px) -> Printf.sprintf "OK %d %d %s" (int_of_z w) (int_of_z h) (string_of_pixels px) | None -> "NONE")
+  | ["r_ppm"; file] ->
+      Some (match NetpbmReader.read_ppm_full (bytes_of_hex file) with
+            | Some (((w, h), mx), px) -> Printf.sprintf "OK %d %d %d %s" (int_of_z w) (int_of_z h) (int_of_z mx) (string_of_pixels px) | None -> "NONE")
+  | ["r_pam"; file] ->
+      Some (match NetpbmReader.read_pam_full (bytes_of_hex file) with
+            | Some i -> Printf.sprintf "OK %d %d %d %d %s %s" (int_of_z i.NetpbmReader.pi_width) (int_of_z i.NetpbmReader.pi_height)
+                          (int_of_z i.NetpbmReader.pi_depth) (int_of_z i.NetpbmReader.pi_maxval) (string_of_cps i.NetpbmReader.pi_tupltype)
+                          (string_of_pixels i.NetpbmReader.pi_pixels)
+            | None -> "NONE")
+  | _ -> None
+
 let handle toks =
+  match handle_ser toks with Some a -> a | None ->
   match toks with
   | ["classify"; size; border; rows] ->
       string_of_zrows (classify_matrix (zi size) (zi border) (rows_of_string rows))
   | ["align_aux"; size] -> string_of_zrows (align_aux_matrix (zi size))
   | ["kf_fmt_col"; size; i; j] -> string_of_bool (kf_fmt_col (zi size) (zi i) (zi j))
   | "encode" :: error :: version :: mode :: mask :: eci :: micro :: boost :: parts ->
-      (match encode (List.map part_of_string parts) (ozi error) (ozi version) (ozi mode) (ozi mask) (eci = "1") (obool micro) (boost = "1") with
+      (match encode (L.map part_of_string parts) (ozi error) (ozi version) (ozi mode) (ozi mask) (eci = "1") (obool micro) (boost = "1") with
        | Ok c -> string_of_code c
        | Err e -> "ERR " ^ string_of_exn e)
   | ["decode"; rows] ->
@@ -134,11 +230,11 @@ let handle toks =
   | ["encseq"; error; version; mode; mask; en; ec; eci; boost; count; content] ->
       (match encode_sequence (scontent_of_string content) (ozi error) (ozi version) (ozi mode) (ozi mask) (enc_of en ec)
                (eci = "1") (boost = "1") (ozi count) with
-       | Ok cs -> "OK " ^ String.concat " | " (List.map code_body cs)
+       | Ok cs -> "OK " ^ S.concat " | " (L.map code_body cs)
        | Err e -> "ERR " ^ string_of_exn e)
   | "encargs" :: error :: version :: mode :: mask :: eci :: micro :: boost :: parts ->
-      let ps = List.map part_of_string parts in
-      (match encode_args (fun m -> List.map (fun p -> { p with p_mode = m }) ps) (pyval_of_string error) (pyval_of_string version)
+      let ps = L.map part_of_string parts in
+      (match encode_args (fun m -> L.map (fun p -> { p with p_mode = m }) ps) (pyval_of_string error) (pyval_of_string version)
                (pyval_of_string mode) (pyval_of_string mask) (eci = "1") (pyval_of_string micro) (boost = "1") with
        | Ok c -> string_of_code c
        | Err e -> "ERR " ^ string_of_exn e)
@@ -149,17 +245,17 @@ let handle toks =
   | ["find_mode"; hex] -> string_of_int (int_of_z (find_mode (bytes_of_hex hex)))
   | ["mask_scores"; rows] ->
       let r = rows_of_string rows in
-      let (((a, b), c), d) = mask_scores (z_of_int (List.length r)) r in
+      let (((a, b), c), d) = mask_scores (z_of_int (L.length r)) r in
       Printf.sprintf "%d,%d,%d,%d" (int_of_z a) (int_of_z b) (int_of_z c) (int_of_z d)
   | ["micro_score"; rows] ->
-      let r = rows_of_string rows in string_of_int (int_of_z (evaluate_micro_mask (z_of_int (List.length r)) r))
+      let r = rows_of_string rows in string_of_int (int_of_z (evaluate_micro_mask (z_of_int (L.length r)) r))
   | _ -> "ERR unknown request"
 
 let () =
   try
     while true do
       let line = input_line stdin in
-      let toks = List.filter (fun s -> s <> "") (String.split_on_char ' ' line) in
+      let toks = L.filter (fun s -> s <> "") (S.split_on_char ' ' line) in
       let ans = try handle toks with e -> "ERR " ^ Printexc.to_string e in
       print_string ans; print_char '\n'
     done
